@@ -42,8 +42,11 @@ def assigned(tree, names):
 _NUM = r"[-+]?(?:\d+(?:\.\d*)?|\.\d+)"
 _RE_PAREN = re.compile(r"^(%s)\((\d+(?:\.\d*)?|\.\d+)\)(#?)$" % _NUM)
 _RE_PLAIN = re.compile(r"^(%s)$" % _NUM)
-_RE_NOMINAL = re.compile(r"^\[(%s)\]$" % _NUM)
-_RE_RANGE = re.compile(r"^\[(%s),(%s)\]$" % (_NUM, _NUM))
+# blanks inside the brackets do not change what the interval denotes: [lo, hi]
+_RE_NOMINAL = re.compile(r"^\[\s*(%s)\s*\]$" % _NUM)
+_RE_RANGE = re.compile(r"^\[\s*(%s)\s*,\s*(%s)\s*\]$" % (_NUM, _NUM))
+# one value cell of a white-space separated table: a bracketed group (blanks allowed inside) or a blank-free token
+_CELL = r"(\[[^\]]*\]|[^\s\[\]]\S*)"
 
 
 def decimals_of(text):
@@ -85,9 +88,9 @@ def read_unc(text):
 # ----------------------------------------------------------------------
 # mass.py
 _RE_ISOMASS = re.compile(r"^(\d+)-([A-Za-z]+)-(\d+),([^,]*),([^,]*),([^,]*)$")
-_RE_ELMASS = re.compile(r"^(\d+)\s+([A-Za-z]+)\s+(\S+)\s+(\S+)")
+_RE_ELMASS = re.compile(r"^(\d+)\s+([A-Za-z]+)\s+(\S+)\s+%s" % _CELL)
 _RE_ABHEAD = re.compile(r"^(\d+)\s+([A-Za-z]+)\s+(\S+)")
-_RE_ABISO = re.compile(r"^[ \t]+(\d+)\s+(\S+)")
+_RE_ABISO = re.compile(r"^[ \t]+(\d+)\s+%s" % _CELL)
 
 
 def mass_tables():
@@ -96,23 +99,28 @@ def mass_tables():
       isotope_mass: list of (z, sym, a, mass_text, avg_text)  in file order
       element_mass: {z: (sym, value_text)}    ('-' rows omitted)
       abundance:    {z: (sym, {a: value_text})}
+      problems:     [(table, row text, reason)]  rows that could not be laid out (skipped, never raised)
     """
     nodes = assigned(module_ast("mass"), ("isotope_mass", "element_mass", "isotope_abundance"))
     text = {k: ast.literal_eval(v) for k, v in nodes.items()}
+    problems = []
     iso = []
     for ln in text["isotope_mass"].split("\n"):
         m = _RE_ISOMASS.match(ln)
         if not m:
-            raise ValueError("isotope_mass row not understood: %r" % ln)
+            problems.append(("isotope_mass", ln, "row is not z-El-A,mass,abundance,weight"))
+            continue
         iso.append((int(m.group(1)), m.group(2), int(m.group(3)), m.group(4), m.group(6)))
     elm = {}
     for ln in text["element_mass"].split("\n"):
         m = _RE_ELMASS.match(ln)
         if not m:
-            raise ValueError("element_mass row not understood: %r" % ln)
+            problems.append(("element_mass", ln, "row is not Z symbol name value"))
+            continue
         if m.group(4) != "-":
             if int(m.group(1)) in elm:
-                raise ValueError("element_mass lists Z=%s twice" % m.group(1))
+                problems.append(("element_mass", ln, "Z listed twice"))
+                continue
             elm[int(m.group(1))] = (m.group(2), m.group(4))
     ab = {}
     cur = None
@@ -120,19 +128,33 @@ def mass_tables():
         m = _RE_ABISO.match(ln)
         if m:
             if cur is None:
-                raise ValueError("abundance row before any element header: %r" % ln)
-            if int(m.group(1)) in ab[cur][1]:
-                raise ValueError("abundance table lists %s-%s twice" % (cur, m.group(1)))
-            ab[cur][1][int(m.group(1))] = m.group(2)
+                problems.append(("isotope_abundance", ln, "isotope row before any element header"))
+            elif int(m.group(1)) in ab[cur][1]:
+                problems.append(("isotope_abundance", ln, "isotope listed twice for Z=%d" % cur))
+            else:
+                ab[cur][1][int(m.group(1))] = m.group(2)
             continue
         m = _RE_ABHEAD.match(ln)
         if not m:
-            raise ValueError("isotope_abundance row not understood: %r" % ln)
+            problems.append(("isotope_abundance", ln, "neither an element header nor an isotope row"))
+            continue
+        if int(m.group(1)) in ab:
+            problems.append(("isotope_abundance", ln, "element listed twice"))
+            cur = None
+            continue
         cur = int(m.group(1))
-        if cur in ab:
-            raise ValueError("abundance table lists Z=%d twice" % cur)
         ab[cur] = (m.group(2), {})
-    return dict(isotope_mass=iso, element_mass=elm, abundance=ab)
+    return dict(isotope_mass=iso, element_mass=elm, abundance=ab, problems=problems)
+
+
+class Bad(object):
+    """Marker for a cell that is not in a documented notation."""
+
+    def __init__(self, text):
+        self.text = text
+
+    def __repr__(self):
+        return "Bad(%r)" % (self.text,)
 
 
 # ----------------------------------------------------------------------
@@ -155,14 +177,14 @@ def density_table():
             return None
         if isinstance(n, ast.Constant) and isinstance(n.value, (int, float)) and not isinstance(n.value, bool):
             return Decimal(ast.get_source_segment(text, n))
-        raise ValueError("density entry not understood: %s" % ast.dump(n))
+        return Bad(ast.get_source_segment(text, n))
 
     for kw in node.keywords:
         if kw.arg is None or kw.arg in out:
             raise ValueError("density keyword %r" % kw.arg)
         v = kw.value
         if isinstance(v, ast.Tuple):
-            out[kw.arg] = number(v.elts[0])
+            out[kw.arg] = number(v.elts[0]) if v.elts else Bad("()")
         else:
             out[kw.arg] = number(v)
     return out
